@@ -39,6 +39,7 @@ let list_of = function L l -> l | _ -> failwith "list"
 let bool_of x = atom x <> "0"
 let pos_of x = match z_of_sx x with Zpos p -> p | _ -> failwith "positive"
 
+let atom_of = function L [A "i"; z] -> AInt (z_of_sx z) | L [A "s"; h] -> AStr (str_of h) | _ -> failwith "atom"
 let cell_of = function
   | A "none" -> CNone | A "nz" -> CFlt FNegZero | A "nan" -> CFlt FNaN | A "pinf" -> CFlt FPInf | A "ninf" -> CFlt FNInf
   | L [A "i"; z] -> CInt (z_of_sx z)
@@ -46,7 +47,8 @@ let cell_of = function
   | L [A "ff"; m; e] -> CFlt (FFrac (z_of_sx m, pos_of e))
   | L [A "b"; b] -> CBool (bool_of b)
   | L [A "s"; h] -> CStr (str_of h)
-  | L [A "tup"; a; b] -> CTup (z_of_sx a, z_of_sx b)
+  | L [A "tup"; a; b] -> CTup (atom_of a, atom_of b)
+  | L [A "td"; n] -> CTd (z_of_sx n)
   | L [A "per"; f; o] -> CPer (z_of_sx f, z_of_sx o)
   | L [A "ts"; n] -> CTs (z_of_sx n)
   | _ -> failwith "cell"
@@ -54,8 +56,9 @@ let cells_of x = List.map cell_of (list_of x)
 let ndt_of = function A "F" -> NFloat | A "I" -> NInt | A "B" -> NBool | A "S" -> NStr | A "O" -> NObj | _ -> failwith "ndt"
 let pdt_of = function
   | A "f64" -> PFloat64 | A "i64" -> PInt64 | A "u64" -> PUInt64 | A "bool" -> PBool | A "str" -> PStrDt | A "obj" -> PObject
-  | A "dt" -> PDatetime | L [A "per"; f] -> PPeriod (z_of_sx f) | _ -> failwith "pdt"
-let ikind_of = function A "range" -> KRange | A "index" -> KIndex | A "period" -> KPeriodIndex | A "datetime" -> KDatetimeIndex | _ -> failwith "ikind"
+  | A "dt" -> PDatetime | A "td" -> PTimedelta | L [A "per"; f] -> PPeriod (z_of_sx f) | _ -> failwith "pdt"
+let ikind_of = function A "range" -> KRange | A "index" -> KIndex | A "period" -> KPeriodIndex | A "datetime" -> KDatetimeIndex
+  | A "multi" -> KMultiIndex | A "timedelta" -> KTimedeltaIndex | _ -> failwith "ikind"
 let span_of = function
   | L [A "range"; cs] -> { spkind = SRange; splabels = cells_of cs }
   | L [A "list"; cs] -> { spkind = SList; splabels = cells_of cs }
@@ -89,15 +92,17 @@ let jcell = function
   | CInt z -> "[\"i\"," ^ zstr z ^ "]"
   | CBool b -> if b then "[\"b\",true]" else "[\"b\",false]"
   | CStr s -> "[\"s\"," ^ jstr (hex (string_of_cl s)) ^ "]"
-  | CTup (a, b) -> "[\"tup\"," ^ zstr a ^ "," ^ zstr b ^ "]"
+  | CTup (a, b) -> let ja = function AInt z -> zstr z | AStr s -> jstr (hex (string_of_cl s)) in "[\"tup\"," ^ ja a ^ "," ^ ja b ^ "]"
+  | CTd n -> "[\"td\"," ^ zstr n ^ "]"
   | CPer (f, o) -> "[\"per\"," ^ zstr f ^ "," ^ zstr o ^ "]"
   | CTs n -> "[\"ts\"," ^ zstr n ^ "]"
 let jname s = jstr (hex (string_of_cl s))
 let pdt_name = function
   | PFloat64 -> "float64" | PInt64 -> "int64" | PUInt64 -> "uint64" | PBool -> "bool" | PStrDt -> "str" | PObject -> "object"
-  | PDatetime -> "datetime" | PPeriod f -> "period[" ^ zstr f ^ "]"
+  | PDatetime -> "datetime" | PTimedelta -> "timedelta" | PPeriod f -> "period[" ^ zstr f ^ "]"
 let ndt_name = function NFloat -> "float" | NInt -> "int" | NBool -> "bool" | NStr -> "str" | NObj -> "object"
 let ikind_name = function KRange -> "RangeIndex" | KIndex -> "Index" | KPeriodIndex -> "PeriodIndex" | KDatetimeIndex -> "DatetimeIndex"
+  | KMultiIndex -> "MultiIndex" | KTimedeltaIndex -> "TimedeltaIndex"
 let skind_name = function SRange -> "range" | SList -> "list" | STuple -> "tuple" | SNdarray -> "nparr" | SPandas (k, _) -> ikind_name k
 let exn_name = function
   | ValueError -> "ValueError" | IndexError -> "IndexError" | KeyError -> "KeyError" | AttributeError -> "AttributeError"
